@@ -37,6 +37,9 @@ func quickCases() []*kase {
 		lindell22Case("T23-q23", t23, []ID{2, 3}, []byte("m")),
 		lindell22Case("T23-q123", t23, i3, []byte("m")),
 		hjkyCase("T22", t22, i2), hjkyCase("T23", t23, i3), hjkyCase("T33", t33, i3), hjkyCase("U3", unanimous(i3...), i3),
+		// one OT-based signing protocol in the quick tier (hundreds of draws per party; failing-source probes at the
+		// round boundaries): DKLs23 with the OT-extension multiplier
+		dkls23MultCase("softspoken", "T22-q12", t22, i2, []byte("m")),
 	}
 }
 
@@ -72,6 +75,7 @@ func thoroughCases() []*kase {
 		hjkyCase("T24", t24, i4), hjkyCase("T34", t34, i4), hjkyCase("U2", unanimous(i2...), i2), hjkyCase("U4", unanimous(i4...), i4),
 		dkls23Case("T22-q12", t22, i2, []byte("m")),
 		dkls23Case("T23-q13", t23, []ID{1, 3}, []byte("m")),
+		dkls23MultCase("softspoken", "T23-q23", t23, []ID{2, 3}, []byte("m")),
 		lindell17Case("T22-p1-s2", t22, 1, 2, fischlin.Name, []byte("m")),
 		lindell17Case("T23-p3-s2", t23, 3, 2, randfischlin.Name, []byte("m")),
 		ecbbotCase(16, 2), ecbbotCase(128, 1),
